@@ -54,7 +54,15 @@ def classify(h, rec):
       continue
     if name in ("UpdateRecord", "BulkUpdateRecord") and tid in sch:
       cols = list(a[3].keys())
-      if cols and all(c in sch[tid] and sch[tid][c][1] for c in cols):
+      # formula columns, and data columns carrying a (trigger / default) formula: their values are
+      # formula results unless the user action itself supplied the column
+      supplied = set()
+      for ua in rec["actions"]:
+        if ua[1] == tid:
+          for part in ua[2:]:
+            if isinstance(part, dict):
+              supplied.update(part.keys())
+      if cols and all(c in sch[tid] and (sch[tid][c][1] or (sch[tid][c][2] and c not in supplied)) for c in cols):
         if flag:
           h._find("C31", "update of formula results marked direct", "%s %s %r" % (name, tid, cols), rec)
         continue
@@ -65,7 +73,8 @@ def classify(h, rec):
     if tid in requested and tid not in summary_tables and not tid.startswith("_grist_") \
         and name in ("AddRecord", "BulkAddRecord", "RemoveRecord", "BulkRemoveRecord", "UpdateRecord", "BulkUpdateRecord"):
       # the user's requested edit: its data columns must be carried by a direct action
-      datacols = [c for c in (a[3].keys() if len(a) > 3 else []) if c in sch.get(tid, {}) and not sch[tid][c][1]]
+      datacols = [c for c in (a[3].keys() if len(a) > 3 else [])
+                  if c in sch.get(tid, {}) and not sch[tid][c][1] and not sch[tid][c][2]]
       if (name.endswith("RemoveRecord") or name.endswith("AddRecord") or datacols) and not flag:
         # reverse-reference / position adjustments of OTHER rows are not the user's request: only
         # flag when the rows are among the requested rows or newly returned ids
